@@ -88,6 +88,9 @@ func (v *violation) key() string {
 		if v.Kind == "state-after-abort" {
 			pre = "abort-after-" + v.Term
 		}
+		if v.Recursed {
+			pre += ":active-callee"
+		}
 		return fmt.Sprintf("C04:%s:%s:got-%s-want-%s", pre, d.Class, d.Got.class(), d.Want.class())
 	case "read":
 		d := v.Diffs[0]
@@ -138,11 +141,11 @@ type monitor struct {
 	lastEvent    string
 	lastAbortRan string // terminator the last aborted attempt had already executed ("" none)
 	nResync      int
-	armPC     bool
-	pcFired   bool
-	ranTerm   string // terminator executed by the current attempt ("" if the attempt did not get that far)
-	reads     []Access
-	readDiffs []diff
+	armPC        bool
+	pcFired      bool
+	ranTerm      string // terminator executed by the current attempt ("" if the attempt did not get that far)
+	reads        []Access
+	readDiffs    []diff
 
 	steps, attempts, aborts int
 	abortsAfterTerm         map[string]int // aborted attempts in which call/tail/ret had already run
@@ -279,6 +282,10 @@ func (m *monitor) compare(st *State) []diff {
 				ds = append(ds, diff{fmt.Sprintf("frame[%d].%s", i, name), "frame-var", got, w})
 			}
 			for _, name := range sortedKeys(frames[i].vars) {
+				// a frame may carry bookkeeping of its own; saving ANOTHER variable of the program is what is wrong
+				if _, isCell := st.Vars[name]; !isCell {
+					continue
+				}
 				if _, ok := want.Saved[name]; !ok {
 					ds = append(ds, diff{fmt.Sprintf("frame[%d].%s", i, name), "frame-extra", frames[i].vars[name], RVal{K: 'm'}})
 				}
@@ -392,6 +399,10 @@ func (m *monitor) body(name string) func(distsys.ArchetypeInterface) error {
 		if m.viol != nil || m.truncated != "" {
 			return errStopRun
 		}
+		if m.attempts > m.maxAttempts && m.resynced() {
+			m.truncated = "attempt cap reached after resynchronising on a known finding"
+			return errStopRun
+		}
 		if m.attempts > m.maxAttempts {
 			m.raise(&violation{Kind: "step-cap", Label: name, Detail: fmt.Sprintf("more than %d attempts", m.maxAttempts)})
 			return errStopRun
@@ -422,8 +433,7 @@ func (m *monitor) body(name string) func(distsys.ArchetypeInterface) error {
 		if m.expected == nil {
 			exp, err := m.ref.Peek()
 			if err != nil {
-				var ee *evalErr
-				if errors.As(err, &ee) && m.resynced() {
+				if m.resynced() {
 					m.truncated = "reference cannot continue after resynchronising on a known finding: " + err.Error()
 					return errStopRun
 				}
